@@ -16,9 +16,19 @@ CLAIMED = {
    design='5/C18'),
  'C12': dict(
    text='Machine-checked proof (Coq 8.16): the merge table generated from AddpathDirection::merge equals the RFC 7911 rule on all 9 pairs; for every pair of capability lists (any number/placement of ADD-PATH capabilities, each family at most once locally) and every family the derived configuration holds exactly dir_spec(local, peer) - receive iff local recv/both and peer send/both, send symmetrically - hence swapping the OPENs swaps send/receive; four-octet iff both carry capability 65 (BMP: per-peer header bit); the BMP per-peer-header derivation and the live-session derivation hold the same directions. No bound on the number of families or capabilities.',
-   note='Trusted: Coq kernel + vm_compute on the 9-pair table; translator tools/gen_merge.py; hand-written Model/Negotiate.v and Model/Open.v tied by a differential run (all 16 combinations per family x placements x four-octet x legacy through the helper and both BMP derivations). Live-session clause: proved on the model, exercised through the C08 hooks.',
+   note='Trusted: Coq kernel + vm_compute on the 9-pair table; translator tools/gen_merge.py; hand-written Model/Negotiate.v and Model/Open.v tied by a differential run (all 16 combinations per family x placements x four-octet x legacy through the helper and both BMP derivations). Live-session clause: c12_live_session_fsm ties the FSM model (generated table, OPEN acceptance block) to live_session_config; the configuration of the connection is compared after every step of the C08 correspondence (cfg hooks). F16 fixed in /repo.',
    technique='Coq proof by induction over capability/family lists + finite table check on generated merge arms; differential correspondence',
    design='5/C12'),
+ 'C08': dict(
+   text='Machine-checked proof (Coq 8.16) over the transition table regenerated from Session::handle_event on every run: for every abstract session (all values of state, timer flags, connection, DelayOpen / SendNOTIFICATIONwithoutOPEN / exact attributes, arbitrary counters, queues, hold times) and every one of the 21 events, outside the known todo!() cells the step does not panic and the next state is the one of an independently written RFC 4271 8.2.2 table; in OpenSent / OpenConfirm / Established a forbidden event, hold-timer expiry or manual stop sends the NOTIFICATION the RFC names, releases the connection and goes Idle; Established is entered only by a KEEPALIVE in OpenConfirm and OpenConfirm only by accepting an OPEN from an allowed AS, hence (by induction over event histories of any length) an Established session has seen such an OPEN and later a KEEPALIVE; an UPDATE is handed to the application iff the session is Established when it is processed; a received NOTIFICATION reaches the application and the FSM.',
+   note='Trusted: Coq kernel (vm_compute over the finite control part); translator tools/gen_fsm.py (statements recognised exactly, OPEN acceptance block by hash), hand-written action semantics in Model/Fsm.v, RFC table in Model/RefFsm.v; tied through cfg hooks: every event history up to the depth bound, every (state, event) cell, message-driven steps also black box over a loopback TCP stream through tick(), random histories, judged against a Python copy of the RFC table. Five defects fixed in /repo (UPDATE forwarding, NotifMsg, two wire-reachable todo!() groups, live negotiation); K4 (unimplemented active-open cells) and K6 (tick maps errors to Connect; unparsable ADD-PATH capability) recorded.',
+   technique='Coq proof: generated transition table interpreted on an abstract session, exhaustive case analysis of the finite control part against an RFC reference table, induction over event histories; differential correspondence through cfg hooks',
+   design='5/C08'),
+ 'C09': dict(
+   text='Machine-checked proof (Coq 8.16): for every sequence of well-formed frames and every way their octets are cut into reads (any number of reads, any split points, empty reads, starting with part of a message already buffered) the extractor returns exactly these messages, each once, in order, and ends with an empty buffer - by induction over the reads with a prefix-decomposition lemma, no bound on counts or sizes; a length field below 19 or a complete frame that does not decode is an error; neither the extractor (for any octets and any reads) nor the blocking reader (for every length value) panics; no message the peer can send panics the session while a connection is attached.',
+   note='Trusted: Coq kernel; hand-written Model/Fsm.v (parse_frame, read loop, read_message; bodies pinned by hash); the theorems are parametric in the validity of an extracted frame (Message::from_octets). Tied through cfg hooks that append octets to the receive buffer and run the extractor: every split point of short streams, one-octet reads, random partitions, every small length value and a sweep of all 65536. F14 fixed in /repo.',
+   technique='Coq proof: prefix decomposition of the stream, induction over reads; no-panic lemmas; differential correspondence through cfg hooks',
+   design='5/C09'),
  'C10': dict(
    text='Machine-checked proof (Coq 8.16): for all pairs of eligible routes the comparison (chain order generated from the source) equals the RFC 4271 9.1.2.2 / RFC 4456 decision computed by an independent key-vector reference and never panics; with MED comparison disabled it is a strict weak order (irreflexive, transitive, incomparability transitive, Eq compatible) via a then_with-closure lemma; antisymmetry for both strategies; a MED preference cycle is exhibited; try_new refuses exactly the routes lacking ORIGIN/AS_PATH or eBGP without neighbour; hop count = sequence ASNs + sets.',
    note='Trusted: Coq kernel; translator tools/gen_cmpchain.py (step order generated, step bodies pinned by hash); Model/Select.v projection of PaMap/TiebreakerInfo, tied by a differential run over a route lattice (pairs in both orders, triples, both strategies) plus an independent Python reference and order-law checks on the implementation answers.',
